@@ -13,6 +13,38 @@ _c17 = importlib.util.module_from_spec(_spec)
 _spec.loader.exec_module(_c17)
 
 
+def first_request_configs(seed, n):
+    """n fresh-process configurations of the first-request family (harness/conc18.cpp, VERIF_FIRST / VERIF_SLOWSEED):
+    thread count x start mode x stagger x duration and granularity of the seeding call x requests per thread.
+    The staggers are chosen relative to the duration D of the seeding call so that first requests arrive before,
+    during and after it; a few absolute short ones and immediate delivery keep the natural-speed windows covered."""
+    import random
+    rnd = random.Random(seed * 7919 + 18)
+    modes = [1, 2, 1, 3, 2, 1, 4, 0]               # linear stagger, leader+rest, random delays, no barrier, barrier
+    out = []
+    for i in range(n):
+        T = [2, 3, 4, 6, 8, 12, 16][(i + seed) % 7]
+        mode = modes[i % len(modes)]
+        prof = i % 16
+        if prof == 15:
+            pre, chunk, gap = 0, 0, 0                                   # immediate delivery (natural speed)
+        elif prof % 3 == 0:
+            pre, chunk, gap = rnd.choice([500, 2000, 5000]), 32, 0      # late, in one piece
+        elif prof % 3 == 1:
+            pre, chunk, gap = rnd.choice([0, 300, 1500]), rnd.choice([16, 8, 4]), rnd.choice([250, 600])   # in pieces
+        else:
+            pre, chunk, gap = rnd.choice([0, 200]), 1, 60               # byte by byte
+        D = pre + ((32 // chunk - 1) * gap if chunk else 0)
+        if D == 0 or i % 11 == 10:
+            stagger = rnd.choice([2, 10, 40, 150])
+        elif mode in (1, 3):
+            stagger = max(1, int(D * rnd.choice([0.5, 1.0, 1.6]) / T))  # arrivals spread over [0, f*D]
+        else:
+            stagger = max(1, int(D * rnd.choice([0.05, 0.3, 0.6, 0.9, 1.2])))
+        out.append(dict(T=T, R=rnd.choice([1, 2, 3, 5]), mode=mode, stagger=stagger, slow="%d:%d:%d" % (pre, chunk, gap), seed=seed * 100000 + 1800 + i))
+    return out
+
+
 def streams(ctx, res):
     prng_srcs = [os.path.join(cl.REPO, "lib", "prng", "fastrandombytes.cpp"),
                  os.path.join(cl.REPO, "lib", "prng", "nfl_crypto_stream_salsa20_amd64_xmm6.s")]
@@ -45,6 +77,31 @@ def streams(ctx, res):
     if len(st.specfail) != 7 or st.ok != 2:
         ctx["problems"].append({"kind": "selftest", "what": "executable spec histOk does not reject the bad histories (specfail=%d ok=%d)" % (len(st.specfail), st.ok)})
     thorough = ctx["tier"] == "thorough"
+    # ---- first-request family: the START of the process's history under concurrency, with a slow entropy source.
+    # One fresh unsanitised process per configuration; every returned buffer goes to the driver (conc18k lines:
+    # executable Salsa20 specification under the key randombytes delivered) followed by the history (conc18f).
+    # measured on seeded change C18-3 (flag published before the key is written, unlocked fast path), 10 quick runs
+    # (seeds 1..10, machine loaded): 267 of the 320 processes report a buffer generated under the all-zero / a partially
+    # written key (linear stagger 117/120, leader 71/80, random 39/40, no barrier 33/40, barrier 7/40), i.e. 23-28 of the 32
+    # processes of every run => 10/10 runs; unchanged tree and the two halves of that change alone: 0/320
+    fexe = exes.get(("conc18n", "serial"))
+    fruns = ffail = 0
+    nrep0 = 0
+    if fexe:
+        for c in first_request_configs(ctx["seed"], 160 if thorough else 32):
+            env = {"VERIF_SEED": str(c["seed"]), "VERIF_THREADS": str(c["T"]), "VERIF_REQS": str(c["R"]), "VERIF_TIER": ctx["tier"],
+                   "VERIF_FIRST": "%d:%d" % (c["mode"], c["stagger"]), "VERIF_SLOWSEED": c["slow"]}
+            nsf, nfi = len(res.specfail), len(ctx.get("failing_inputs", []))
+            nrep0 += _c17.run_tsan_stream(ctx, res, "conc18-first/%d" % fruns, fexe, env,
+                                          "a FIRST request of the process, made while the key is being seeded by another thread (slow entropy source), returns keystream of the all-zero / partially written key, or the seeding/nonce bookkeeping of the first requests is wrong")
+            fruns += 1
+            if len(res.specfail) > nsf:
+                ffail += 1
+                if ffail > 2:            # two failing processes are reported in full; the others are counted
+                    del res.specfail[nsf:]
+                    del ctx["failing_inputs"][nfi:]
+                else:
+                    del res.specfail[nsf + 3:]
     Ts = list(range(2, 17)) if thorough else [2, 3, 4, 6, 8, 12, 16]
     reps = 4
     nrep = 0
@@ -90,15 +147,17 @@ def streams(ctx, res):
         del res.specfail[6:]
     return {"backends": sorted(b for (n_, b) in exes if n_ == "conc18"), "tsan_reports": nrep, "process_runs": runs, "failing_runs": total_specfail,
             "boundary_runs": bruns, "whitebox_nonce_preset": whitebox,
-            "note": "every process run starts with all threads released together before any request has been made (first-request race)"}
+            "first_request_processes": fruns, "first_request_failing_processes": ffail,
+            "note": "every process run starts with all threads released together before any request has been made (first-request race); the first-request family adds fresh processes with staggered / leader / random / unsynchronised starts against a slow, piecewise seeding call, every buffer identified under the delivered key"}
 
 
 PROP = {
     "streams": streams,
-    "rule": "boundary bursts (position in the process's history): the main thread advances the generator with counted silent requests to N0 = k*2^b - d (b = 8, 16, 24 black box, really performed, up to 17 M requests per boundary; b = 32..56 and the wrap 2^64 white box by presetting the static nonce, when it exists), probes (must be nonce N0-1), then T = 4/8/16 threads are released so that their N = T*R requests straddle the carry; blocks identified among the reference keystreams of [N0-1-24, N0+N+24] and of the window shifted by +-2^b, +-2^(b-8); history must be N0-1..N0+N-1 each once; repeated per boundary (quick: 7 x 2^24 - measured single-burst detection of seeded change C18-2 0.45-0.78 - thorough 48). Then each run = one process: T in {2,3,4,8,16} (thorough 2..16) threads released together before ANY request, 200-300 (thorough 800) requests per thread of lengths 8,1,64,100,1000,3,16,65,128,2,63 from /repo's fastrandombytes (fixed key); every returned block identified among portable-C Salsa20 reference keystreams of nonces 0..N+15 (cross-checked against the assembly), short blocks by maximum matching; the Lean driver checks per run: nonces = {0..N-1} each once, per-thread increasing, one seeding, zero TSan reports; then one FastGaussianNoise object shared by threads calling getNoise while others sample uniform/ZO/hwt/bounded/gaussian polynomials; distinct = distinct runs",
+    "rule": "first-request family (start of the process's history): 32 (thorough 160) fresh unsanitised processes, T in {2,3,4,6,8,12,16} threads whose FIRST requests start together / linearly staggered / one leader then the rest / at random delays / unsynchronised, against a harness randombytes that is SLOW (waits 0-5 ms, then delivers the 32 key bytes in pieces of 32/16/8/4/1 bytes 60-600 us apart; staggers chosen relative to that duration; some immediate), 1-5 requests per thread of lengths 8,9,64,100,1000,16,3,65,128,2,63,32,1,256,511; EVERY returned buffer is a driver line checked against the executable Salsa20 specification (Spec/Salsa20.lean) under the key randombytes delivered and the nonce identified; a buffer that is not is looked up under the all-zero key and the 31 partially written keys and reported with the key it matches; then the history (nonces 0..N-1 each once, one seeding). Then boundary bursts (position in the process's history): the main thread advances the generator with counted silent requests to N0 = k*2^b - d (b = 8, 16, 24 black box, really performed, up to 17 M requests per boundary; b = 32..56 and the wrap 2^64 white box by presetting the static nonce, when it exists), probes (must be nonce N0-1), then T = 4/8/16 threads are released so that their N = T*R requests straddle the carry; blocks identified among the reference keystreams of [N0-1-24, N0+N+24] and of the window shifted by +-2^b, +-2^(b-8); history must be N0-1..N0+N-1 each once; repeated per boundary (quick: 7 x 2^24 - measured single-burst detection of seeded change C18-2 0.45-0.78 - thorough 48). Then each run = one process: T in {2,3,4,8,16} (thorough 2..16) threads released together before ANY request, 200-300 (thorough 800) requests per thread of lengths 8,1,64,100,1000,3,16,65,128,2,63 from /repo's fastrandombytes (fixed key); every returned block identified among portable-C Salsa20 reference keystreams of nonces 0..N+15 (cross-checked against the assembly), short blocks by maximum matching; the Lean driver checks per run: nonces = {0..N-1} each once, per-thread increasing, one seeding, zero TSan reports; then one FastGaussianNoise object shared by threads calling getNoise while others sample uniform/ZO/hwt/bounded/gaussian polynomials; distinct = distinct runs",
     "trusted_base": _props.COMMON_TB + [
-        "PARTIAL: the theorems are about the interleaving model of Model/Prng18.lean (each line of the request = one atomic step, sequentially consistent memory, std::mutex = an atomic test-and-set that is enabled only when free); that the compiled code is such an interleaving is not proved; real schedules are observed under ThreadSanitizer",
-        "block identification is done in C++ (harness/conc18.cpp: portable Salsa20/20 reference, cross-checked against the repository's assembly called directly) - no executable Lean Salsa20 in this tree; a block is identified with the (nonce, key) it was generated from",
+        "PARTIAL: the theorems are about the interleaving model of Model/Prng18.lean (each line of the request = one atomic step; the seeding step split into the call of randombytes, one write per delivered piece of the key - any number of pieces - and the write of the flag, in either order; sequentially consistent memory, std::mutex = an atomic test-and-set that is enabled only when free); that the compiled code is such an interleaving is not proved; real schedules are observed under ThreadSanitizer",
+        "block identification (the search for the nonce) is done in C++ (harness/conc18.cpp: portable Salsa20/20 reference, cross-checked against the repository's assembly called directly); in the first-request family the identification of every buffer is re-checked by the driver against the executable Lean Salsa20 (Spec/Salsa20.lean, C13's specification), in the long TSan runs and boundary bursts it is not; a block is identified with the (nonce, key) it was generated from",
+        "first-request family: timing is chosen, not controlled - the slow harness randombytes widens the seeding window to milliseconds and the starts are spread over it, but which thread seeds and which interleaving occurs is the machine's choice (measured on seeded change C18-3: 23-28 of the 32 processes of a quick run report it, 10 runs of 10; 0 of 320 on the unchanged tree)",
         "ThreadSanitizer (gcc 12 libtsan) sees the C++ accesses to init/key/nonce in fastrandombytes.cpp and the samplers in the headers; the Salsa20 assembly's own reads of key/my_nonce are uninstrumented",
         "harness-provided nfl::randombytes (fixed key, call counter) replaces lib/prng/randombytes.cpp (that file is C19's subject)",
     ],
